@@ -66,9 +66,22 @@ def main(tier_: str) -> int:
         from dashlive.server.options.repository import OptionsRepository
         from dashlive.utils.timezone import UTC
         defaults = OptionsRepository.get_default_options()
-        ref = StreamTimingReference(media_name='ref', media_duration=9600, num_media_segments=10,
-                                    segment_duration=960, timescale=240)
+        # reference segment duration / timescale: 4 s, and durations whose double is not a whole number of seconds
+        # (3.84 s, 4.004 s, 1.25 s and 1.75 s - the two ties of round-half-even -, 4.0107 s)
+        ref_defs = [(960, 240), (96, 25), (120120, 30000), (5, 4), (7, 4), (192512, 48000)]
+        refs = [StreamTimingReference(media_name='ref', media_duration=10 * sd, num_media_segments=10, segment_duration=sd, timescale=ts)
+                for sd, ts in ref_defs]
+        from fractions import Fraction
+
+        def period_obs(mup_value, ast, publish) -> dict[str, int]:
+            if not mup_value:
+                return {'mup': 0, 'mup_whole': 1, 'k_whole': 1}
+            fr = Fraction(str(mup_value))
+            whole = 1 if fr.denominator == 1 else 0
+            k = Fraction((publish - ast).total_seconds()).limit_denominator(10**6) / fr
+            return {'mup': int(fr), 'mup_whole': whole, 'k_whole': 1 if k.denominator == 1 else 0}
         groups: dict[tuple, int] = {}
+        ref_of_group: dict[tuple, int] = {}
         states.sort(key=lambda s: (s['start'], s['depth'], s['mup'], s['i']))
         lines: list[dict[str, Any]] = []
         for n, s in enumerate(states):
@@ -79,16 +92,19 @@ def main(tier_: str) -> int:
                 args['mup'] = str(s['mup'])
             opts = OptionsRepository.convert_cgi_options(args, defaults)
             opts.add_field('mode', 'live')
+            # one reference per option group (so that successive instants of a group stay comparable)
+            gi = ref_of_group.setdefault((s['start'], s['depth']), len(ref_of_group))
+            ref = refs[gi % len(refs)] if s['mup'] == ABSENT else refs[0]
             t = DashTiming(now, ref, opts)
-            g = groups.setdefault((s['start'], s['depth'], s['mup']), len(groups) + 1)
+            g = groups.setdefault((s['start'], s['depth'], s['mup'], ref.segment_duration, ref.timescale), len(groups) + 1)
             if s['start'].startswith('x'):
                 g = -(n + 1)      # explicit starts are relative to now: no relational clause across lines
             lines.append({
                 'tid': n + 1, 'grp': g, 'layer': 'pure', 'now': s['now'], 'start': s['start'], 'xk': s['xk'],
-                'depth': s['depth'], 'mup': s['mup'], 'has_fta': 1, 'refSegDur': 960, 'refTs': 240,
+                'depth': s['depth'], 'mup': s['mup'], 'has_fta': 1, 'refSegDur': ref.segment_duration, 'refTs': ref.timescale,
                 'obs': {'ast': to_inst(t.availabilityStartTime), 'publish': to_inst(t.publishTime),
-                        'tsbd': int(t.timeShiftBufferDepth), 'mup': int(t.minimumUpdatePeriod or 0),
-                        'fta': dur(t.firstAvailableTime)}})
+                        'tsbd': int(t.timeShiftBufferDepth), 'fta': dur(t.firstAvailableTime)}
+                       | period_obs(t.minimumUpdatePeriod, t.availabilityStartTime, t.publishTime)})
         npure = len(lines)
         # ---- HTTP: the same clauses on rendered manifests -------------------------------------
         rng = random.Random(seed() * 17 + 8)
@@ -130,7 +146,8 @@ def main(tier_: str) -> int:
                     'has_fta': 0, 'refSegDur': 960, 'refTs': 240, 'url': url,
                     'obs': {'ast': to_inst(m['availabilityStartTime']), 'publish': to_inst(m['publishTime']),
                             'tsbd': m['timeShiftBufferDepth'] // 10**6 if m['timeShiftBufferDepth'] % 10**6 == 0 else -1,
-                            'mup': (mupv // 10**6) if mupv else 0, 'fta': {'s': 0, 'u': 0}}})
+                            'fta': {'s': 0, 'u': 0}}
+                           | period_obs(Fraction(mupv, 10**6) if mupv else 0, m['availabilityStartTime'], m['publishTime'])})
         hl.sort(key=lambda x: (x['grp'], x['now']['d'], x['now']['s'], x['now']['u']))
         lines.extend(hl)
         vs, st = validate_trace('LiveParamsTrace', lines, workdir=d, chunk=4000, parallel=12)
